@@ -97,84 +97,19 @@ def _unit(arg):
     t0 = time.time()
     ur = UnitResult()
     try:
-        config = Config.from_json(config_json)
-        policy = policy_from_name(pol_name)
         oracle = load_oracle(oracle_spec, params)
-        hooks = getattr(oracle, 'hooks', None)
-        kw = dict(run_kw)
-        stage_filter = kw.pop('deviate_stages', None)      # only deviate at points of these stages
-        full_sites = kw.pop('full_expand_sites', None)      # (unused here; see c04)
-
-        def judge(x):
-            x.frozen_ns = list(x.cs.ns)   # the oracle may draw further choices; they are not explored
-            digest = exec_digest(x)       # taken BEFORE the oracle runs (it may draw from the same source)
-            ur.execs += 1
-            ur.transitions += len(x.cs.ns)
-            ur.max_points = max(ur.max_points, len(x.cs.ns))
-            if x.cs.unused_deviations():
-                ur.errors.append('deviation not consumed: %r' % (schedule_json(x),))
-            vs = oracle.judge(x)
-            for v in vs:
-                v = dict(v)
-                v.setdefault('schedule', schedule_json(x))
-                v.setdefault('digest', digest)
-                ur.violations.append(v)
-            for t in (x.T0, x.T1, x.T2):
-                if t is not None:
-                    ur.states.add(hashlib.md5(t.encode()).digest()[:8])
-
-        base = pipeline.run_execution(config, policy, None, hooks=hooks, **kw)
-        base_digest = exec_digest(base)
-        ns = list(base.cs.ns)
-        if slice_idx == 0:
-            ur.bases.append((schedule_json(base), base_digest))
-            judge(base)
-            _stage_hist(base, ur.stage_points)
-            if len(ur.samples) < 1:
-                ur.samples.append({'schedule': schedule_json(base), 'choice_points': len(base.cs.ns),
-                                   'T0_head': (base.T0 or '')[:300], 'error': base.error})
-
-        def allowed(x, pos):
-            if stage_filter is None:
-                return True
-            return x.cs.stage_of(pos) in stage_filter
-
-        def expand(x, start, depth):
-            """all single deviations of x at positions >= start; recurse to `bound`."""
-            xns = x.frozen_ns
-            for pos in range(start, len(xns)):
-                if depth == 1 and pos % nslices != slice_idx:
-                    continue
-                if not allowed(x, pos):
-                    continue
-                for alt in range(xns[pos] - 1):
-                    if budget_s and time.time() - t0 > budget_s:
-                        ur.capped += 1
-                        return False
-                    dev = dict(x.dev)
-                    dev[pos] = alt
-                    y = pipeline.run_execution(config, policy, dev, hooks=hooks, **kw)
-                    judge(y)
-                    if depth < bound:
-                        if not expand(y, pos + 1, depth + 1):
-                            return False
-            return True
-
-        if bound >= 1:
-            base.frozen_ns = ns
-            done = expand(base, 0, 1)
-            ur.bound_done = bound if done else 0
-        # end-of-life replay of the base schedule: state leaking between executions?
-        again = pipeline.run_execution(config, policy, None, hooks=hooks, **kw)
-        if exec_digest(again) != base_digest:
-            ur.errors.append('base schedule not reproducible inside worker: %s %s' % (config, pol_name))
+        # a family unit carries a list of configurations (one per hand-built program) that share one oracle
+        # object (and, for Java, one compile server); an ordinary unit carries one configuration
+        cfgs = config_json if isinstance(config_json, list) else [config_json]
+        for cj in cfgs:
+            _explore_config(cj, pol_name, slice_idx, nslices, bound, oracle, run_kw, budget_s, ur, t0)
         if hasattr(oracle, 'finish_unit'):
             oracle.finish_unit()
             for v in getattr(oracle, 'batch_vs', None) or []:
                 v = dict(v)
                 v.setdefault('schedule', None)
                 v.setdefault('digest', None)
-                v['unit'] = {'config': config_json, 'policy': pol_name, 'slice': slice_idx}
+                v['unit'] = {'config': cfgs[0], 'policy': pol_name, 'slice': slice_idx}
                 ur.violations.append(v)
         ur.stats = oracle.stats
     except BaseException as e:  # noqa
@@ -183,10 +118,91 @@ def _unit(arg):
     return ur
 
 
+def _explore_config(config_json, pol_name, slice_idx, nslices, bound, oracle, run_kw, budget_s, ur, t0):
+    config = Config.from_json(config_json)
+    policy = policy_from_name(pol_name)
+    hooks = getattr(oracle, 'hooks', None)
+    kw = dict(run_kw)
+    stage_filter = kw.pop('deviate_stages', None)      # only deviate at points of these stages
+    full_sites = kw.pop('full_expand_sites', None)      # (unused here; see c04)
+
+    def judge(x):
+        x.frozen_ns = list(x.cs.ns)   # the oracle may draw further choices; they are not explored
+        digest = exec_digest(x)       # taken BEFORE the oracle runs (it may draw from the same source)
+        ur.execs += 1
+        ur.transitions += len(x.cs.ns)
+        ur.max_points = max(ur.max_points, len(x.cs.ns))
+        if x.cs.unused_deviations():
+            ur.errors.append('deviation not consumed: %r' % (schedule_json(x),))
+        vs = oracle.judge(x)
+        for v in vs:
+            v = dict(v)
+            v.setdefault('schedule', schedule_json(x))
+            v.setdefault('digest', digest)
+            ur.violations.append(v)
+        for t in (x.T0, x.T1, x.T2):
+            if t is not None:
+                ur.states.add(hashlib.md5(t.encode()).digest()[:8])
+
+    base = pipeline.run_execution(config, policy, None, hooks=hooks, **kw)
+    base_digest = exec_digest(base)
+    ns = list(base.cs.ns)
+    if slice_idx == 0:
+        ur.bases.append((schedule_json(base), base_digest))
+        judge(base)
+        _stage_hist(base, ur.stage_points)
+        if len(ur.samples) < 1:
+            ur.samples.append({'schedule': schedule_json(base), 'choice_points': len(base.cs.ns),
+                               'T0_head': (base.T0 or '')[:300], 'error': base.error})
+
+    def allowed(x, pos):
+        if stage_filter is None:
+            return True
+        return x.cs.stage_of(pos) in stage_filter
+
+    def expand(x, start, depth):
+        """all single deviations of x at positions >= start; recurse to `bound`."""
+        xns = x.frozen_ns
+        for pos in range(start, len(xns)):
+            if depth == 1 and pos % nslices != slice_idx:
+                continue
+            if not allowed(x, pos):
+                continue
+            for alt in range(xns[pos] - 1):
+                if budget_s and time.time() - t0 > budget_s:
+                    ur.capped += 1
+                    return False
+                dev = dict(x.dev)
+                dev[pos] = alt
+                y = pipeline.run_execution(config, policy, dev, hooks=hooks, **kw)
+                judge(y)
+                if depth < bound:
+                    if not expand(y, pos + 1, depth + 1):
+                        return False
+        return True
+
+    if bound >= 1:
+        base.frozen_ns = ns
+        done = expand(base, 0, 1)
+        ur.bound_done = bound if done else 0
+    # end-of-life replay of the base schedule: state leaking between executions?
+    again = pipeline.run_execution(config, policy, None, hooks=hooks, **kw)
+    if exec_digest(again) != base_digest:
+        ur.errors.append('base schedule not reproducible inside worker: %s %s' % (config, pol_name))
+
+
 def explore(configs, policies, bound, oracle_spec, params=None, jobs=16, seed=0, nslices=8,
-            run_kw=None, budget_s=None):
-    """-> merged UnitResult + list of unit descriptors."""
+            run_kw=None, budget_s=None, chunk=None):
+    """-> merged UnitResult + list of unit descriptors.  chunk=N: N configurations per unit (family
+    programs: many tiny configurations share one oracle object)."""
     units = []
+    if chunk:
+        nslices = 1
+        for p in policies:
+            for i in range(0, len(configs), chunk):
+                units.append(([c.to_json() for c in configs[i:i + chunk]], policy_name(p), 0, 1, bound,
+                              oracle_spec, params or {}, run_kw or {}, budget_s))
+        configs = []
     for c in configs:
         for p in policies:
             for s in range(nslices if bound >= 1 else 1):
